@@ -12,6 +12,7 @@ RULE = (
     "book ranked by the monitor's own key; distinct = hash(pre-round book, fills); non-trivial = >=2 orders of a "
     "side compete at one price, or a removal from the middle of the book preceded the round. Also: best order "
     "after every boundary return, and all six comparison operators on pairs of live same-side orders."
+    " Since the seeded rounds: tie-block histories (6-16 orders sharing price and acceptance step, eaten by many small rounds), cancel bursts in stopped phases, forced rounds on a stopped market, requests refused by design followed by a best-order check at that quiescent point, and a 'clipped' runner profile (price limit rule + HFT agents)."
 )
 ASSUMPTIONS = [
     "Market.buy_order_book / sell_order_book expose get_best_order/get_best_price (named in observe_at)",
